@@ -249,25 +249,65 @@ func (r *runner) step(o opT) (fw.Event, string) {
 	case "Tick":
 		r.seg()
 		ev["shape"] = fmt.Sprintf("keep=%d", len(o.Keep))
-		end := time.Now().Add(tickLength)
+		keep := map[string]bool{}
+		for _, n := range o.Keep {
+			keep[n] = true
+		}
+		// everybody registered and not kept alive goes stale and must be swept by the server's own
+		// sweep goroutine during the tick
+		var targets []*srvkit.Conn
+		for _, n := range w.ConnNames {
+			if tc := w.Conn(n); tc != nil && !keep[n] && w.S.View(tc).InControl {
+				targets = append(targets, tc)
+			}
+		}
 		last := time.Now()
-		for time.Now().Before(end) {
+		beat := func() {
 			for _, n := range o.Keep {
 				if kc := w.Conn(n); kc != nil && !kc.Closed() {
 					_ = kc.Heartbeat()
 				}
 			}
 			if time.Since(last) > hbTimeout/2 {
-				r.overrun = true
+				r.overrun = true // a kept connection may have gone stale: nothing of this trace is judged
 			}
 			last = time.Now()
+		}
+		end := time.Now().Add(tickLength)
+		for time.Now().Before(end) {
+			beat()
 			time.Sleep(hbEvery)
 		}
-		for _, n := range o.Keep {
-			if kc := w.Conn(n); kc != nil && !kc.Closed() {
-				_ = kc.Heartbeat()
+		// The sweep is a multi-step operation of a server goroutine (drop from the registry, then
+		// CloseConnection). A projection taken in the middle of it is not "after the connection
+		// was evicted": wait until it is over. Still registered after the grace period = the sweep
+		// did not run inside the timing margin (inconclusive); dropped from the registry but
+		// transport/session entry still there after the grace period = left to the judge.
+		grace := time.Now().Add(2 * time.Second)
+		for {
+			pending, registered := false, false
+			for _, tc := range targets {
+				v := w.S.View(tc)
+				if v.InControl {
+					registered = true
+				}
+				if v.InControl || v.InSession || !v.Closed {
+					pending = true
+				}
 			}
+			if !pending {
+				break
+			}
+			if time.Now().After(grace) {
+				if registered {
+					r.overrun = true
+				}
+				break
+			}
+			beat()
+			time.Sleep(hbEvery / 3)
 		}
+		beat()
 		r.segStart = time.Now()
 	default:
 		return nil, "unknown operation " + o.Op
